@@ -4,10 +4,17 @@
 -/
 import PG.Model.Parser
 import PG.Lemmas.ListBasics
-import PG.Lemmas.ParserRT
+
+import PG.Lemmas.ParserProgress
 namespace PG
 
 /-! ### byte facts -/
+
+/-- (same as `validUtf8_cons_ascii` of PG.Lemmas.ParserRT, which cannot be imported together
+    with PG.Lemmas.ParserLocal) -/
+theorem validUtf8_cons_ascii' (c : UInt8) (a : Bytes) (hc : c < 0x80) :
+    validUtf8 (c :: a) = validUtf8 a := by
+  rw [validUtf8.eq_def]; simp only [hc, if_true]
 
 theorem isCont_ge {b : UInt8} (h : isCont b = true) : ¬ b < 0x80 := by
   unfold isCont at h
@@ -180,7 +187,7 @@ theorem validUtf8_split (p w : Bytes) (h : validUtf8 (p ++ w) = true) (hw : Star
 theorem validUtf8_split_ascii (a b : Bytes) (c : UInt8) (hc : c < 0x80)
     (h : validUtf8 (a ++ c :: b) = true) : validUtf8 a = true ∧ validUtf8 b = true := by
   obtain ⟨h1, h2⟩ := validUtf8_split a (c :: b) h (StartsChar.cons b (not_isCont_of_ascii hc))
-  rw [validUtf8_cons_ascii c b hc] at h2
+  rw [validUtf8_cons_ascii' c b hc] at h2
   exact ⟨h1, h2⟩
 
 /-! ### `trim` -/
@@ -212,9 +219,140 @@ theorem stripWs_valid {bs r : Bytes} (h : stripWs bs = some r) (hv : validUtf8 b
   · split at h
     · rename_i hb
       cases h
-      rw [validUtf8_cons_ascii _ _ (asciiWs_lt hb)] at hv
+      rw [validUtf8_cons_ascii' _ _ (asciiWs_lt hb)] at hv
       exact hv
     · cases h
   · cases h
+
+theorem trimStartFuel_valid (n : Nat) (bs : Bytes) (hv : validUtf8 bs = true) :
+    validUtf8 (trimStartFuel n bs) = true := by
+  induction n generalizing bs with
+  | zero => exact hv
+  | succ n ih =>
+    simp only [trimStartFuel]
+    split
+    · rename_i r h
+      exact ih r (stripWs_valid h hv)
+    · exact hv
+
+/-- cutting a trailing piece that starts at a character boundary off a reversed string -/
+theorem valid_rev_cut (r w : Bytes) (hw : StartsChar w)
+    (hv : validUtf8 (r.reverse ++ w) = true) : validUtf8 r.reverse = true :=
+  (validUtf8_split _ _ hv hw).1
+
+theorem stripWsRev_valid {x r : Bytes} (h : stripWsRev x = some r)
+    (hv : validUtf8 x.reverse = true) : validUtf8 r.reverse = true := by
+  unfold stripWsRev at h
+  split at h
+  · cases h
+    exact valid_rev_cut r [0xC2, 0x85] (StartsChar.cons _ (by decide)) (by simpa using hv)
+  · cases h
+    exact valid_rev_cut r [0xC2, 0xA0] (StartsChar.cons _ (by decide)) (by simpa using hv)
+  · cases h
+    exact valid_rev_cut r [0xE1, 0x9A, 0x80] (StartsChar.cons _ (by decide)) (by simpa using hv)
+  · cases h
+    exact valid_rev_cut r [0xE2, 0x81, 0x9F] (StartsChar.cons _ (by decide)) (by simpa using hv)
+  · cases h
+    exact valid_rev_cut r [0xE3, 0x80, 0x80] (StartsChar.cons _ (by decide)) (by simpa using hv)
+  · rename_i b r'
+    split at h
+    · cases h
+      exact valid_rev_cut r [0xE2, 0x80, b] (StartsChar.cons _ (by decide)) (by simpa using hv)
+    · split at h
+      · rename_i hb
+        cases h
+        exact valid_rev_cut (0x80 :: 0xE2 :: r') [b]
+          (StartsChar.cons _ (not_isCont_of_ascii (asciiWs_lt hb))) (by simpa using hv)
+      · cases h
+  · split at h
+    · rename_i hb
+      cases h
+      exact valid_rev_cut _ [_]
+        (StartsChar.cons _ (not_isCont_of_ascii (asciiWs_lt hb))) (by simpa using hv)
+    · cases h
+  · cases h
+
+theorem trimEndRevFuel_valid (n : Nat) (x : Bytes) (hv : validUtf8 x.reverse = true) :
+    validUtf8 (trimEndRevFuel n x).reverse = true := by
+  induction n generalizing x with
+  | zero => exact hv
+  | succ n ih =>
+    simp only [trimEndRevFuel]
+    split
+    · rename_i r h
+      exact ih r (stripWsRev_valid h hv)
+    · exact hv
+
+/-- `str::trim` of a valid string is valid -/
+theorem trim_valid (s : Bytes) (hv : validUtf8 s = true) : validUtf8 (trim s) = true := by
+  unfold trim trimEnd trimStart
+  apply trimEndRevFuel_valid
+  rw [List.reverse_reverse]
+  exact trimStartFuel_valid _ _ hv
+
+/-! ### `split_once` / `rsplit_once` -/
+
+theorem splitOnce_eq {c : UInt8} {s a b : Bytes} (h : splitOnce c s = some (a, b)) :
+    s = a ++ c :: b := by
+  unfold splitOnce at h
+  split at h
+  · cases h
+  · rename_i d r heq
+    simp only [Option.some.injEq, Prod.mk.injEq] at h
+    obtain ⟨rfl, rfl⟩ := h
+    have hd : d = c := by
+      have := List.head?_dropWhile_not (fun x => x != c) s
+      rw [heq] at this
+      simpa using this
+    subst hd
+    have := List.takeWhile_append_dropWhile (p := fun x => x != d) (l := s)
+    rw [heq] at this
+    exact this.symm
+
+theorem rsplitOnce_eq {c : UInt8} {s a b : Bytes} (h : rsplitOnce c s = some (a, b)) :
+    s = a ++ c :: b := by
+  unfold rsplitOnce at h
+  split at h
+  · cases h
+  · rename_i a' b' h'
+    simp only [Option.some.injEq, Prod.mk.injEq] at h
+    obtain ⟨rfl, rfl⟩ := h
+    have := congrArg List.reverse (splitOnce_eq h')
+    simpa using this
+
+theorem splitForeign_valid {s : Bytes} (hv : validUtf8 s = true) :
+    validUtf8 (splitForeign s).1 = true ∧ ∀ c, (splitForeign s).2 = some c → validUtf8 c = true := by
+  unfold splitForeign
+  split
+  · rename_i c m heq
+    have e := rsplitOnce_eq heq
+    rw [e] at hv
+    obtain ⟨h1, h2⟩ := validUtf8_split_ascii c m 46 (by decide) hv
+    refine ⟨h2, ?_⟩
+    intro c' hc'
+    simp only [Option.some.injEq] at hc'
+    subst hc'; exact h1
+  · exact ⟨hv, by intro c hc; cases hc⟩
+
+theorem splitForeign_length (s : Bytes) :
+    (splitForeign s).1.length + ((splitForeign s).2.map List.length).getD 0 ≤ s.length := by
+  unfold splitForeign
+  split
+  · rename_i c m heq
+    have e := congrArg List.length (rsplitOnce_eq heq)
+    simp only [List.length_append, List.length_cons] at e
+    simp only [Option.map_some, Option.getD_some]
+    omega
+  · simp
+
+theorem litSourceFile_valid : validUtf8 litSourceFile = true := by decide
+
+theorem trim_length_le (s : Bytes) : (trim s).length ≤ s.length := by
+  unfold trim trimEnd trimStart
+  rw [List.length_reverse]
+  have h1 := (trimEndRevFuel_suffix (trimStartFuel s.length s).length (trimStartFuel s.length s).reverse).length_le
+  have h2 := (trimStartFuel_suffix s.length s).length_le
+  rw [List.length_reverse] at h1
+  omega
 
 end PG
